@@ -669,3 +669,58 @@ pub(super) struct CodegenMethodRouter {
     pub(super) methods_and_pipelines: Vec<(BTreeSet<String>, CodegenedRequestHandlerPipeline)>,
     pub(super) catch_all_pipeline: CodegenedRequestHandlerPipeline,
 }
+
+/// Verification hook: the `(pattern, domain id)` pairs that the generated `domain_router()`
+/// inserts for the given guards, read off the code emitted by [`domain_router_init`].
+#[cfg(pavex_verif)]
+pub(crate) fn verif_domain_router_inserts(guards: &[DomainGuard]) -> Vec<(String, u32)> {
+    use crate::compiler::analyses::components::ComponentId;
+
+    let mut codegen_deps: ahash::HashMap<String, PackageId> = Default::default();
+    let mut package_id2name = BiHashMap::new();
+    for name in ["pavex", "http", "hyper", "thiserror", "matchit", "serde"] {
+        let id = PackageId::new(name);
+        codegen_deps.insert(name.to_string(), id.clone());
+        package_id2name.insert(id, name.to_string());
+    }
+    let sdk_deps = ServerSdkDeps::new(&codegen_deps, &package_id2name);
+    let domain2path_router: BTreeMap<DomainGuard, PathRouter> = guards
+        .iter()
+        .map(|g| {
+            (
+                g.clone(),
+                PathRouter {
+                    path2method_router: BTreeMap::new(),
+                    root_fallback_id: ComponentId::from_raw(la_arena::RawIdx::from(0u32)),
+                },
+            )
+        })
+        .collect();
+    let item_fn = domain_router_init(&domain2path_router, &sdk_deps);
+    let mut inserts = Vec::new();
+    for stmt in &item_fn.block.stmts {
+        let syn::Stmt::Expr(syn::Expr::MethodCall(unwrap), Some(_)) = stmt else {
+            continue;
+        };
+        let syn::Expr::MethodCall(insert) = &*unwrap.receiver else {
+            continue;
+        };
+        if insert.method != "insert" || insert.args.len() != 2 {
+            continue;
+        }
+        if let (
+            syn::Expr::Lit(syn::ExprLit {
+                lit: syn::Lit::Str(pattern),
+                ..
+            }),
+            syn::Expr::Lit(syn::ExprLit {
+                lit: syn::Lit::Int(id),
+                ..
+            }),
+        ) = (&insert.args[0], &insert.args[1])
+        {
+            inserts.push((pattern.value(), id.base10_parse().unwrap()));
+        }
+    }
+    inserts
+}
